@@ -156,8 +156,10 @@ def run(prop, tier, seed, replay=None):
     core.cargo_build()
     if replay:
         rp = json.load(open(replay))
+        src = os.path.join(wd, "replay_in.ndjson")
+        core.write_lines(src, rp["instance"]["run"][:1])
         tp = os.path.join(wd, "replay.ndjson")
-        core.write_lines(tp, rp["instance"]["run"])
+        core.mt("replay-flow", src, os.path.join(wd, "replay_sum.json"), rp.get("seed", seed), {"trace": tp})
         acc, rej, st, gn = validate(tp, wd, "replay")
         mine = [r for r in rej if attribute(r["event"]) == prop]
         print(("VIOLATION property=%s replay=%s" % (prop, replay)) if mine else ("OK property=%s (replay)" % prop))
